@@ -19,6 +19,8 @@
 #include <gatery/hlim/supportNodes/Node_RetimingBlocker.h>
 #include <gatery/hlim/supportNodes/Node_ExportOverride.h>
 #include <gatery/hlim/supportNodes/Node_Default.h>
+#include <gatery/hlim/supportNodes/Node_Memory.h>
+#include <gatery/hlim/supportNodes/Node_MemPort.h>
 #include <variant>
 
 namespace nd {
@@ -89,6 +91,23 @@ inline void dumpNode(Circuit &circuit, BaseNode *n, std::ostream &o) {
 			try { rv = bitsOrE(evaluateStatically(circuit, rg->getDriver(Node_Register::RESET_VALUE))); } catch (...) { rv = "?"; }
 		}
 		o << "reg " << outW(0) << " " << rt << " " << (activeHigh ? 1 : 0) << " " << rv << " " << (clk ? (int)clk->getId() : -1);
+	} else if (auto *mem = dynamic_cast<Node_Memory*>(n)) {
+		// mem <size in bits> <power-on contents MSB-first 01X or -> <E|U undefined read address behaviour> <noConflicts>
+		o << "mem " << mem->getSize() << " " << (mem->getSize() ? vh::bits(mem->getPowerOnState()) : std::string("-")) << " "
+		  << (mem->undefinedReadAddrBehavior() == Node_Memory::UndefinedReadAddrBehavior::EXACT ? "E" : "U") << " " << mem->noConflicts();
+	} else if (auto *mp = dynamic_cast<Node_MemPort*>(n)) {
+		// memport <word width> <address width> <memory node id> <isRead> <isWrite> <previous write ports, closest first, comma separated or ->
+		auto ad = mp->getDriver((size_t)Node_MemPort::Inputs::address);
+		size_t aw = ad.node ? ad.node->getOutputConnectionType(ad.port).width : 0;
+		o << "memport " << mp->getBitWidth() << " " << aw << " " << (mp->getMemory() ? (long long)mp->getMemory()->getId() : -1) << " "
+		  << mp->isReadPort() << " " << mp->isWritePort() << " ";
+		// Node_MemPort::getPrevWritePorts() (protected): walk the orderAfter chain, keep the write ports, closest first
+		std::vector<Node_MemPort*> prev;
+		for (auto *pn = dynamic_cast<Node_MemPort*>(mp->getDriver((size_t)Node_MemPort::Inputs::orderAfter).node); pn != nullptr;
+		     pn = dynamic_cast<Node_MemPort*>(pn->getDriver((size_t)Node_MemPort::Inputs::orderAfter).node))
+			if (pn->isWritePort()) prev.push_back(pn);
+		if (prev.empty()) o << "-";
+		for (size_t i = 0; i < prev.size(); i++) o << (i ? "," : "") << prev[i]->getId();
 	} else {
 		std::string tn = n->getTypeName(); for (auto &ch : tn) if (isspace((unsigned char)ch)) ch = '_';
 		o << "opaque " << (tn.empty() ? "unknown" : tn) << " " << n->getNumOutputPorts();
@@ -159,6 +178,7 @@ public:
 	Built b;
 	std::vector<std::unique_ptr<ConditionalScope>> scopes;
 	std::vector<std::unique_ptr<GroupScope>> groupStack;
+	std::map<std::string, std::shared_ptr<Memory<UInt>>> mems;
 	bool dropAll = false;
 
 	Val &get(const std::string &n) { auto it = b.vars.find(n); if (it == b.vars.end()) throw std::runtime_error("unknown var " + n); return *it->second; }
@@ -289,6 +309,19 @@ public:
 		else if (op == "dropall") { dropAll = true; }
 		else if (op == "tap") { Val &a = get(t[1]); if (a.isBit()) tap(a.b()); else tap(a.u()); }
 		else if (op == "attr") { Val &a = get(t[1]); SignalAttributes at; at.maxFanout = 8; if (a.isBit()) attribute(a.b(), at); else attribute(a.u(), at); }
+		else if (op == "mem") {        // mem NAME depth width [noconf] [zero]
+			auto m = std::make_shared<Memory<UInt>>(std::stoull(t[2]), UInt(bw(t[3])));
+			m->setName(t[1]);
+			for (size_t i = 4; i < t.size(); i++) { if (t[i] == "noconf") m->noConflicts(); else if (t[i] == "zero") m->initZero(); }
+			mems[t[1]] = m;
+		}
+		else if (op == "memwrite") {   // memwrite MEM ADDR DATA   (conditional when inside if-scopes)
+			(*mems.at(t[1]))[asU(t[2])] = asU(t[3]);
+		}
+		else if (op == "memread") {    // memread NAME MEM ADDR
+			UInt x = (*mems.at(t[2]))[asU(t[3])];
+			setU(t[1], x);
+		}
 		else if (op == "stimkey" || op == "clockcfg") { /* read by the main program */ }
 		else if (op == "comment") { /* comments attach to subsequently created nodes */ }
 		else throw std::runtime_error("unknown statement " + op);
